@@ -15,6 +15,31 @@ BUILT = {
          "Every point of every generated path (millions in the thorough tier) must be reproduced by the published one-step scheme to rounding, or satisfy the Adams PEC / BDF implicit formula over its equally spaced history within analytically derived slack, with the accepted estimate within tolerance. Exploration over seeded generic non-linear problems; held on the executions observed.",
          "Reference formulas are transcribed from the literature in harness/src/refmodel/schemes.rs; Adams slack covers the PEC/PECE difference (30+50 L h units of L h^2 tol); BDF residual bound (1+beta h L) tol with constant 1.",
          "DESIGN.md §4 C03"),
+ "C02": ("exploration",
+         "ground-truth monitor: every accepted step compared with a Richardson-extrapolated RK4 reference flow restarted at the previous yielded point",
+         "Every consecutive pair of points of every generated path of the six adaptive solvers is judged against an independent high-accuracy flow of the same ODE (local error <= K_s tol h, K_s tol for BDF), with dt_max placed by the property's rule. Steps whose reference cannot certify 1e-13 are counted inconclusive. Held on the executions observed.",
+         "Constants K_s are calibrated (>= 6x the maximum seen over 90 000 solves) on the dissipative G-ivp family with O(1) forcing; the reference flow is trusted to its own Richardson estimate.",
+         "DESIGN.md §4 C02"),
+ "C05": ("exploration",
+         "work-accounting monitor: the derivative closure counts its own invocations and enforces a hard budget; outcome, end time, point count and calls-per-point bounded",
+         "Every generated solve must finish without Err, without exhausting a hard evaluation budget (20x the order-appropriate total) and within two calibrated factors: points <= G_s (T L tol^(-1/p) + T/dt_max) and calls <= kappa_s (points + 10); a dedicated BDF-tight stratum exposes implicit-solve failures. Exploration; held on the executions observed.",
+         "G_s, kappa_s calibrated on 608 000 solves (>= 2x..10x observed maxima); L is the generator's Lipschitz/time-scale bound.",
+         "DESIGN.md §4 C05"),
+ "C10": ("exploration",
+         "exhaustive run-time audit of the compiled quadrature tables (orthogonal-polynomial zeros, Christoffel numbers, discrete orthonormality, closed-form moments, double-exponential formula) cross-checked end-to-end against the integrators' call logs and returned values",
+         "Every row and entry of the five Gaussian tables and the tanh-sinh table of the working tree is audited on every run (exhaustive, 5416 stored entries / 192 pairs), and tied to what the compiled library consumes by walking each integrator with a never-converging integrand and by scripted consumption runs.",
+         "Resolution limited by the accuracy of the shipped rows: relative perturbations below 2e-13 (Legendre) / 2e-11 (Hermite, Laguerre nodes) / 1e-9 (Hermite, Laguerre weights) are not flagged.",
+         "DESIGN.md §4 C10"),
+ "C19": ("exploration",
+         "reference-value monitor: returned finite differences against exact derivatives plus the predicted leading error term of the five-point / three-point stencils; linearity; classical remainder bounds",
+         "Random real and complex polynomials pin every stencil weight (exactness up to degree 4 / 3, predicted leading term just above), transcendental functions check the remainder bounds; millions of cases in the thorough tier. Held on the executions observed.",
+         "Rounding allowance K eps ptilde(|x|+2h)/h^m with K = 64 / 128; libm sin/exp accurate to a few ulp.",
+         "DESIGN.md §4 C19"),
+ "C20": ("exploration",
+         "exhaustive comparison of the generated CODATA map and the named constants with an independent run-time parser of codata.txt and with the defining relations",
+         "All 354 rows, all map keys, all 27 named constants, 6 defining values and 5 derived relations are checked on every run (exhaustive).",
+         "codata.txt is the ground truth; str::parse::<f64> is correctly rounded.",
+         "DESIGN.md §4 C20"),
 }
 
 PENDING_REASON = "check not built yet in this commit (runtime monitor designed in DESIGN.md §4; will be claimed when its harness module lands)"
